@@ -143,6 +143,18 @@ impl Parser for Variable {
     }
 }
 
+/// True if the error of a missing operand was reported to the enclosing node
+fn reports_to_parent(expr: &Expression) -> bool {
+    match expr {
+        Expression::Binary(binary) => {
+            matches!(*binary.rhs, Expression::Error(_))
+                || reports_to_parent(&binary.lhs)
+                || reports_to_parent(&binary.rhs)
+        }
+        _ => false,
+    }
+}
+
 impl Parser for Expression {
     fn parse<'a>(this: Option<&Self>, input: TokenStream<'a>) -> IResult<'a, Self> {
         fn parse_bracketed(input: TokenStream) -> IResult<Expression> {
@@ -283,18 +295,6 @@ impl Parser for Expression {
                 )?;
             }
             Ok((input, exp))
-        }
-
-        /// True if the error of a missing operand was reported to the enclosing node
-        fn reports_to_parent(expr: &Expression) -> bool {
-            match expr {
-                Expression::Binary(binary) => {
-                    matches!(*binary.rhs, Expression::Error(_))
-                        || reports_to_parent(&binary.lhs)
-                        || reports_to_parent(&binary.rhs)
-                }
-                _ => false,
-            }
         }
 
         // The error of a missing operand is not stored in the expression,
@@ -639,7 +639,8 @@ impl Parser for Argument {
         let (input, expr) = match this {
             // If the old argument cannot be rebuilt, this is reported to the caller,
             // which parses the argument from scratch.
-            Some(Self::Valid(expr)) => {
+            // An expression, which reported an error to the call statement, is parsed again as well.
+            Some(Self::Valid(expr)) if !reports_to_parent(expr) => {
                 affected(Some(expr), |input| parse_valid(Some(expr), input))(input)?
             }
             _ => alt((|input| parse_valid(None, input), parse_error))(input)?,
